@@ -5,7 +5,7 @@
    composition loses persistent groups (known finding), which depends on reference-count driven registry edits that
    the model does not express. *)
 Require Import List Bool ZArith.
-From FV Require Import Lib.Sym Model.C03 Model.C04 Proofs.C04.
+From FV Require Import Lib.Sym Model.C01 Model.C03 Model.C03Graph Model.C04 Proofs.C04 Proofs.C04Graph.
 Import ListNotations.
 
 (* positional binding is correct: a freshly expanded pipeline whose i-th stateful apply-path actor receives the i-th
@@ -29,6 +29,27 @@ Theorem C04_train_only_not_persistent : forall prev o s,
   oapply o = None -> persisted (train_op prev o s) = persisted s.
 Proof. intros prev o s H. apply (train_op_noapply prev o s H). Qed.
 Print Assumptions C04_train_only_not_persistent.
+
+(* C04 meets C03 and C01: the apply segment of the expression as a task graph (Model/C03Graph.v build_a: the apply-path worker
+   of every operator in the group it shares with the training graph), evaluated by the graph semantics of C01 with the
+   accessor that binds ANY stored list to the persistent groups by position, computes what apply_run computes - so the
+   lifecycle model's positional binding IS the loader semantics of the compiler model (no hypothesis on the stored list:
+   shorter lists leave the remaining actors without state, longer ones are ignored) *)
+Theorem C04_apply_segment : forall e a t sl sts,
+  let ga := build_a e (asource a) in
+  value (geval (Some (combine (pers_gids e (gsource a t sl)) sts)) (anodes ga)) (apa ga)
+  = apply_run (flatten e) sts 0 (xa (source a t sl)).
+Proof. exact apply_segment. Qed.
+Print Assumptions C04_apply_segment.
+
+(* hence, with C04_positional_binding: loaded with what ANY training generation committed - continuing from any previous
+   generation - the apply segment reproduces that training run's own apply path *)
+Theorem C04_apply_segment_generation : forall e a t sl prev,
+  let run := train_run prev (flatten e) (source a t sl) in
+  let ga := build_a e (asource a) in
+  value (geval (Some (combine (pers_gids e (gsource a t sl)) (persisted run))) (anodes ga)) (apa ga) = xa run.
+Proof. exact apply_segment_generation. Qed.
+Print Assumptions C04_apply_segment_generation.
 
 Example C04_witness :
   let a := OpSpec (Some (Actor 5 0 true)) TSame None in
